@@ -13,6 +13,7 @@
 #endif
 
 #include "configure.h"
+#include "verifpoint.h"
 
 namespace QtLogger {
 
@@ -43,6 +44,7 @@ Logger *Logger::instance()
 QTLOGGER_DECL_SPEC
 Logger::~Logger()
 {
+    QTLOGGER_VERIF_POINT("lg.dtor", this, 0, 0);
 #ifndef QTLOGGER_NO_THREAD
     g_activeLogger.testAndSetOrdered(this, nullptr);
 #else
@@ -86,9 +88,11 @@ QTLOGGER_DECL_SPEC
 void Logger::processMessage(QtMsgType type, const QMessageLogContext &context,
                             const QString &message)
 {
+    QTLOGGER_VERIF_POINT("pm.enter", this, type, 0);
 #ifndef QTLOGGER_NO_THREAD
     QMutexLocker locker(mutex());
 #endif
+    QTLOGGER_VERIF_POINT("pm.locked", this, type, 0);
 
     LogMessage lmsg(type, context, message);
     process(lmsg);
@@ -101,6 +105,7 @@ void Logger::processMessage(QtMsgType type, const QMessageLogContext &context,
 #endif
             flush();
     }
+    QTLOGGER_VERIF_POINT("pm.done", this, type, 0);
 }
 
 QTLOGGER_DECL_SPEC
@@ -133,6 +138,7 @@ void Logger::installMessageHandler()
     if (prev != messageHandler) {
         g_previousMessageHandler = prev;
     }
+    QTLOGGER_VERIF_POINT("lg.install", this, prev != messageHandler, 0);
 }
 
 QTLOGGER_DECL_SPEC
@@ -148,6 +154,7 @@ void Logger::restorePreviousMessageHandler()
     }
 
     g_previousMessageHandler = nullptr;
+    QTLOGGER_VERIF_POINT("lg.restore", nullptr, prev != messageHandler, 0);
 }
 
 #ifndef QTLOGGER_NO_THREAD
